@@ -3,6 +3,7 @@ import GdcVerif.Lemmas.ParsersTotal
 import GdcVerif.Lemmas.J2kAlloc
 import GdcVerif.Lemmas.JpegAlloc
 import GdcVerif.Lemmas.J2kTileClamp
+import GdcVerif.Lemmas.J2kPacketBodyAlloc
 /-!
   C09 — decoding ends within time/memory bounded by input length and declared image size.
 
@@ -164,3 +165,37 @@ theorem c09_tile_comp_area (tile : Tile) (siz : SIZSegment) (ht : Bool) (dx dy :
   comp_area_le tile siz ht dx dy hox hoy
 
 end TileClamp
+
+/-! ### JPEG 2000 packet bodies: the length hand-over decodePacket → gatherCBData -/
+namespace PktBody
+
+/-- (12) every code-block buffer `gatherCBData` allocates for a packet is at most the packet's body, and the
+    body is at most the tile data that was left when the packet's header had been read — whatever lengths the
+    header declares (up to 2^32−1 per segment), in every mode, also through the end-of-data `break` of
+    `decodePacket` that hands the declared lengths over untrimmed -/
+theorem c09_cb_buffer_le_tile_data (total : Nat) (mode : Mode) (off : Nat) (cs : List Incl) (r : BodyRes)
+    (h : bodyLoop total mode off cs = some r) (hoff : off ≤ total) (ncb : Nat) :
+    (∀ a ∈ gatherAllocs r.body ncb 0 0 r.incls, a ≤ r.body) ∧ r.body ≤ total - off ∧
+    (gatherAllocs r.body ncb 0 0 r.incls).sum ≤ total - off := by
+  obtain ⟨e1, e2, _⟩ := bodyLoop_body total mode off cs r h
+  have s := gatherAllocs_sum r.body ncb 0 0 r.incls
+  have := e2 hoff
+  exact ⟨gatherAllocs_le _ _ _ _ _, by omega, by omega⟩
+
+/-- (13) over a whole tile: all code-block buffers together are at most the tile data -/
+theorem c09_tile_cb_buffers_le_tile_data (total : Nat) (mode : Mode) (ps : List Pkt) (rs : List PktRes)
+    (h : decodeSeq total mode 0 ps = some rs) : (tileAllocs rs).sum ≤ total :=
+  decodeSeq_sum total mode 0 ps rs h
+
+/-- the seeded witness's shape: a 5-byte header is all of the tile data and declares 0x22000000 bytes: the walk
+    breaks at once, the declared length survives — and nothing is allocated for it -/
+example : (bodyLoop 5 .default 5 [{ included := true, len := 0x22000000 }]) =
+    some { incls := [{ included := true, len := 0x22000000 }], body := 0, off := 5, partialBuf := true } := by decide
+example : gatherAllocs 0 1 0 0 [{ included := true, len := 0x22000000 }] = [] := by decide
+
+/-- non-vacuity: 3 body bytes behind the header, 1000 declared: trimmed to 3, one buffer of 3 bytes -/
+example : (bodyLoop 8 .default 5 [{ included := true, len := 1000 }]) =
+    some { incls := [{ included := true, len := 3 }], body := 3, off := 8, partialBuf := false } := by decide
+example : gatherAllocs 3 1 0 0 [{ included := true, len := 3 }] = [3] := by decide
+
+end PktBody
